@@ -417,9 +417,61 @@ func normalizeSetField(
 	case isSub(old) && isSub(val):
 		cfgOld, _ := old.toConfig(opts)
 		cfgVal, _ := val.toConfig(opts)
-		return mergeConfig(opts, cfgOld, cfgVal)
+		return normalizeMergeDistinct(opts, cfgOld, cfgVal)
 	default:
 		return raiseDuplicateKey(cfg, name)
+	}
+}
+
+// normalizeMergeDistinct merges two objects found for the same name within
+// one input, for example {"a.b": 1, "a": {"c": 2}}. In contrast to
+// mergeConfig a setting must not be defined by both objects.
+func normalizeMergeDistinct(opts *options, to, from *Config) Error {
+	parent := cfgSub{to}
+
+	for name, val := range from.fields.dict() {
+		old, _ := to.fields.get(name)
+		merged, err := normalizeMergeDistinctValue(opts, to, name, old, val)
+		if err != nil {
+			return err
+		}
+		if merged != nil {
+			to.fields.set(name, merged.cpy(context{parent: parent, field: name}))
+		}
+	}
+
+	for i, val := range from.fields.array() {
+		var old value
+		if arr := to.fields.array(); i < len(arr) {
+			old = arr[i]
+		}
+
+		name := fmt.Sprintf("%d", i)
+		merged, err := normalizeMergeDistinctValue(opts, to, name, old, val)
+		if err != nil {
+			return err
+		}
+		if merged != nil {
+			to.fields.setAt(i, parent, merged.cpy(context{parent: parent, field: name}))
+		}
+	}
+	return nil
+}
+
+// normalizeMergeDistinctValue returns the value to be stored, or nil if old
+// is to be kept.
+func normalizeMergeDistinctValue(opts *options, to *Config, name string, old, val value) (value, Error) {
+	switch {
+	case !isNil(old) && isNil(val):
+		return nil, nil
+	case isNil(old):
+		return val, nil
+	case isSub(old) && isSub(val):
+		cfgOld, _ := old.toConfig(opts)
+		cfgVal, _ := val.toConfig(opts)
+		return nil, normalizeMergeDistinct(opts, cfgOld, cfgVal)
+	default:
+		return nil, raiseDuplicateKey(to, name)
 	}
 }
 
